@@ -160,7 +160,7 @@ def front (st : State) (client : Option Addr) (cd : Bool) (copts? : Option (List
 
 def step (st : State) (w : List String) : State × String :=
   match w with
-  | ["ecs", "new", en, f4, f6, m4, m6, nets] =>
+  | ["ecs", "new", "b", en, f4, f6, m4, m6, nets] =>
     match buildFrom en f4 f6 m4 m6 nets with
     | some r =>
       let out := match r with
@@ -169,7 +169,7 @@ def step (st : State) (w : List String) : State × String :=
         | .ok p => s!"ok f4={p.fwd4} f6={p.fwd6} m4={p.min4} m6={p.min6} nets={p.nets.length}"
       ({ st with pol := r.policy }, out)
     | none => (st, "bad-op")
-  | ["ecs", "raw", en, f4, f6, m4, m6, nets] =>
+  | ["ecs", "new", "r", en, f4, f6, m4, m6, nets] =>
     match parseBool en, f4.toNat?, f6.toNat?, m4.toNat?, m6.toNat?, parseNets nets with
     | some en, some f4, some f6, some m4, some m6, some ns =>
       ({ st with pol := some { enabled := en, fwd4 := f4, fwd6 := f6, nets := ns.filterMap id, min4 := m4, min6 := m6 } }, "ok")
